@@ -127,14 +127,24 @@ def check(ctx):
     ctx.ob("R5", f"{cl.qual}::removes-exactly-flagged", ok, f"{cl.qual} on handlers [flagged, live, flagged, live] leaves {why}: not exactly the live handlers in registration order", cl.loc)
     # request builders of the blocking stack arm retry + default failure handler
     n_b = 0
-    for c in repo.subclasses(BASE):
-        for m in c.methods.values():
-            if m.is_static and m.name in ("request", "set_value", "keypress"):
-                n_b += 1
-                kws = set(builder_keywords(repo, m))
-                if c.short == "GeckoPingProtocolHandler":
-                    continue
-                ctx.ob("R5", f"{m.qual}::armed", {"timeout", "retry_count", "on_retry_failed"} <= kws, f"{m.qual} does not arm timeout/retry_count/on_retry_failed", m.loc)
+    # behavioural probe (vlib/handlermodel.builder_armed): the built request times out after the protocol timeout, can be
+    # resent exactly PROTOCOL_RETRY_COUNT times, and its failure callback flags it for removal
+    from ..handlermodel import builder_armed
+    from . import c04 as _c04
+    try:
+        N_ = _I(repo).eval(ast.parse("GeckoConfig.PROTOCOL_RETRY_COUNT", mode="eval").body, {"__mod__": repo.method(BASE, "retry").mod, "__class__": None})
+    except (_PR, _UD):
+        N_ = None
+    seen_b = set()
+    for cname_, builder_, args_, _exp, _desc in _c04.message_table():
+        if builder_ not in ("request", "full_request", "set_value", "keypress") or (cname_, builder_) in seen_b or cname_ == "GeckoPingProtocolHandler":
+            continue
+        seen_b.add((cname_, builder_))
+        m = repo.method(cname_, builder_)
+        n_b += 1
+        pr = builder_armed(repo, cname_, builder_, args_)
+        ok = "raises" not in pr and pr["timeout"] is not None and pr["timeout"] > 0 and pr["budget"] >= 1 and (not isinstance(N_, int) or pr["budget"] == N_) and pr["flags"]
+        ctx.ob("R5", f"{m.qual}::armed", ok, f"{m.qual} builds a request with {pr}: expected a positive timeout, a retry budget of GeckoConfig.PROTOCOL_RETRY_COUNT = {N_} and a failure callback that flags it for removal", m.loc)
     ctx.floor("R5", "request builders", n_b, 9)
 
     # ---- R6 removed once answered --------------------------------------------------------------------------
